@@ -162,6 +162,38 @@ def dataset_aliasing(ctx, how):
     return ctx.done(ctx.AND(*oks), ctx.observe(a))
 
 
+def comma_axis_operand(ctx, how):
+    """an operand whose axis name contains a comma (result of N-d boolean indexing or of flatten) is not renamed by operations"""
+    ctx.c15_mode = False
+    da = ctx.da
+    lx = ctx.labels('i', 2, 'lx')
+    ly = ctx.labels('i', 2, 'ly')
+    a = ctx.mk(['x', 'y'], [lx, ly], ctx.cells('f', 4, 'v'), register=False)
+    if how.startswith('mask'):
+        b = a[ctx.nparray([True, False, True, True], [2, 2], kind='b')]
+    else:
+        b = a.flatten()
+    name = 'x,y'
+    labels0 = b.axes[0].values.tolist()
+    vals0 = b.values.tolist()
+    c = ctx.mk(['z'], [ctx.labels('i', 2, 'lz')], ctx.cells('f', 2, 'w'))
+    op = how.split('-', 1)[1]
+    if op == 'add':
+        r = ctx.call(lambda: b + c)
+    elif op == 'radd':
+        r = ctx.call(lambda: c * b)
+    elif op == 'reshape':
+        r = ctx.call(lambda: b.reshape(name, 'new'))
+    elif op == 'broadcast':
+        r = ctx.call(lambda: b.broadcast([da.Axis(ctx.nparray(c.axes[0].values.tolist(), kind='i'), 'z')] + list(b.axes)))
+    else:
+        r = ctx.call(lambda: da.broadcast_arrays(b, c))
+    # (whether an operation supports comma-named axes at all is not claimed: only that the operand is left alone)
+    ok = ctx.AND(tuple(b.dims) == (name,), b.axes[0].name == name, ctx.eqlist(b.axes[0].values.tolist(), labels0),
+                 ctx.eqlist(b.values.tolist(), vals0), tuple(a.dims) == ('x', 'y'))
+    return ctx.done(ok, list(b.dims))
+
+
 def templates():
     ts = []
 
@@ -171,6 +203,9 @@ def templates():
         for what in ('values', 'values-setitem', 'fill', 'labels', 'labels-attr', 'axis-name', 'dims', 'attrs', 'mutable-attr', 'axis-attrs', 'sort-axis-inplace'):
             for shape, lks in (([3], ['i']), ([2, 2], ['U', 'f'])):
                 add('copy-%s-%s-%s' % (direction, what, 'x'.join(map(str, shape))), 'copy_independent', cost=0.3, shape=shape, lkinds=lks, direction=direction, what=what)
+    for src in ('mask', 'flatten'):
+        for op in ('add', 'radd', 'reshape', 'broadcast', 'broadcast_arrays'):
+            add('comma-axis-%s-%s' % (src, op), 'comma_axis_operand', cost=0.3, how='%s-%s' % (src, op))
     for ctor in ('setitem', 'ctor', 'kwargs'):
         for op in ('set_axis', 'rename_axes', 'axis-item', 'axes-setitem', 'copy-set_axis', 'set_axis-notinplace', 'rename_axes-notinplace', 'rename_keys-notinplace'):
             add('dataset-%s-%s' % (ctor, op), 'dataset_aliasing', cost=0.5, how='%s-%s' % (ctor, op))
